@@ -222,11 +222,24 @@ class MonitorContainerCleanup(MonitorTombstoneAction):
         """
         _LOGGER.critical('Monitor container cleanup: %r', data)
         running = os.path.join(self._tm_env.running_dir, data['id'])
-        data_dir = supervisor.open_service(running, existing=False).data_dir
         cleanup = os.path.join(self._tm_env.cleanup_dir, data['id'])
 
+        try:
+            container_dir = os.readlink(running)
+            if os.readlink(cleanup) != container_dir:
+                # Another container of the same instance is still waiting
+                # for its cleanup under that name: do not take its link.
+                cleanup = os.path.join(self._tm_env.cleanup_dir,
+                                       os.path.basename(container_dir))
+        except OSError:
+            # Not a link / nothing in cleanup under that name.
+            pass
+
         # pid1 will SIGABRT(6) when there is an issue
-        if int(data['signal']) == 6:
+        # (nothing to flag if the container was already handed to cleanup)
+        if int(data['signal']) == 6 and os.path.exists(running):
+            data_dir = supervisor.open_service(running,
+                                               existing=False).data_dir
             app_abort.flag_aborted(data_dir, why=app_abort.AbortedReason.PID1)
 
         try:
